@@ -59,6 +59,31 @@ theorem C09_update_shows_conf (old : List Backend) (conf : List BConf) (k : Stri
     · exact ⟨b, List.mem_append_left _ hb, hbk.trans hk⟩
     · exact ⟨mkNew c, List.mem_append_right _ (List.mem_map.mpr ⟨c, List.mem_mergeSort.mpr hr, rfl⟩), hk⟩
 
+/-- The same configuration again releases nothing: after an Update, a second Update with the same backend list keeps
+    every object (so a reload that repeats the configuration in use cannot lose or re-create a backend). -/
+theorem C09_update_same_conf_releases_nothing (old : List Backend) (conf : List BConf) :
+    (rrUpdate (rrUpdate old conf).1 conf).2 = [] := by
+  obtain ⟨hnd, hin⟩ := updLoop_nodup old (confMap conf) (confMap_nodup conf)
+  have hkey : ∀ c : BConf, (mkNew c).key = c.key := fun c => rfl
+  have hl1 : (rrUpdate old conf).1 = (updLoop old (confMap conf)).1 ++
+      ((updLoop old (confMap conf)).2.2.mergeSort (fun a b => a.key ≤ b.key)).map mkNew := by
+    unfold rrUpdate; rfl
+  have hperm := List.mergeSort_perm (updLoop old (confMap conf)).2.2 (fun a b => decide (a.key ≤ b.key))
+  have hkeys : ((rrUpdate old conf).1.map (·.key)).Perm
+      (((updLoop old (confMap conf)).1.map (·.key)) ++ ((updLoop old (confMap conf)).2.2.map (·.key))) := by
+    rw [hl1, List.map_append, List.map_map]
+    refine List.Perm.append_left _ ?_
+    have : ((·.key) ∘ mkNew : BConf → String) = (·.key) := by funext c; exact hkey c
+    rw [this]
+    exact hperm.map _
+  have h2 : (rrUpdate (rrUpdate old conf).1 conf).2 = (updLoop (rrUpdate old conf).1 (confMap conf)).2.1 := by
+    unfold rrUpdate; rfl
+  rw [h2]
+  apply updLoop_keeps_all
+  · exact hkeys.nodup_iff.mpr hnd
+  · intro b hb
+    exact hin _ (hkeys.subset (List.mem_map.mpr ⟨b, hb, rfl⟩))
+
 /-- Newly added backends are selectable: fresh objects are available, unreleased, with the configured weight. -/
 theorem C09_added_selectable (c : BConf) :
     (mkNew c).avail = true ∧ (mkNew c).released = 0 ∧ (mkNew c).weight = c.weight * 100 ∧
